@@ -41,7 +41,7 @@ func (p *P) Runs(tier string) int {
 	if tier == "thorough" {
 		return 1200000
 	}
-	return 12000
+	return 16000
 }
 
 // ColdRuns: number of cold-start runs of a batch – each in a fresh process
@@ -49,11 +49,15 @@ func (p *P) Runs(tier string) int {
 // first, the sequential reference afterwards. This is the only way to see a
 // race in first-use initialisation (sync.Once tables, lazily built maps).
 func (p *P) ColdRuns(tier string) int {
+	nBase, nFeat := int(ops.NKinds)*len(coldReps), int(ops.NKinds)*len(gen.Features())
 	if tier == "thorough" {
-		return 8 * int(ops.NKinds) * len(coldReps)
+		return nBase + nFeat + 3*nBase
 	}
-	return int(ops.NKinds) * len(coldReps)
+	return nBase + 250
 }
+
+// Indexed: the driver makes the run's index its first choice (systematic strata).
+func (p *P) Indexed() bool { return true }
 
 func (p *P) Init(env *core.Env) error {
 	p.env = env
@@ -104,6 +108,19 @@ var coldReps = []string{
 	"SELECT 'unterminated",
 }
 
+// sqlKinds: the operation kinds whose behaviour depends on an SQL text.
+var sqlKinds = func() []ops.Kind {
+	var ks []ops.Kind
+	for _, k := range ops.All() {
+		switch k {
+		case ops.Suggest, ops.Observe, ops.Monitor, ops.Span, ops.ConfigLoad:
+		default:
+			ks = append(ks, k)
+		}
+	}
+	return ks
+}()
+
 type cell struct {
 	op    ops.Op
 	purge bool   // a GC cycle empties all pools just before this operation
@@ -123,9 +140,35 @@ func (p *P) Run(src *tape.Source, trace bool) *core.Result {
 	// initialises on first use is initialised by several tasks at once. The
 	// pair is the run's first choice: the driver enumerates the pairs.
 	coldKind, coldSQL := ops.Kind(-1), ""
-	if p.env.Cold {
-		pair := src.Intn(int(ops.NKinds)*len(coldReps), "c10.coldpair")
-		coldKind, coldSQL = ops.Kind(pair/len(coldReps)), coldReps[pair%len(coldReps)]
+	pureFocus := false // warm focused run: small, and biased towards hand-overs through the pools
+	// the first choice of every run is its index in the batch (cold batch or warm batch)
+	j := src.Intn(1<<30, "c10.runindex")
+	if !p.env.Cold {
+		// warm runs: every second one is FOCUSED - all tasks start with the same
+		// operation kind on the same grammar feature (enumerated, scattered)
+		if j%2 == 1 {
+			nFeat := len(sqlKinds) * len(gen.Features())
+			f := ((j / 2) * 1013) % nFeat
+			coldKind, coldSQL = sqlKinds[f/len(gen.Features())], gen.Features()[f%len(gen.Features())]
+			r.Probes["focused-run(all tasks: same operation kind, same grammar feature)"]++
+			pureFocus = true
+		}
+	} else {
+		nBase, nFeat := int(ops.NKinds)*len(coldReps), int(ops.NKinds)*len(gen.Features())
+		switch {
+		case j < nBase || j >= nBase+nFeat:
+			// every operation kind x one representative per statement kind
+			pair := j
+			if j >= nBase {
+				pair = (j - nBase - nFeat) % nBase
+			}
+			coldKind, coldSQL = ops.Kind(pair/len(coldReps)), coldReps[pair%len(coldReps)]
+		default:
+			// every operation kind x every grammar feature, in a scattered order so
+			// that a prefix of the enumeration is a spread sample
+			f := ((j - nBase) * 1013) % nFeat
+			coldKind, coldSQL = ops.Kind(f/len(gen.Features())), gen.Features()[f%len(gen.Features())]
+		}
 	}
 	// ---- configuration (swarm)
 	nTasks := 2 + src.Intn(3, "c10.tasks")
@@ -165,11 +208,17 @@ func (p *P) Run(src *tape.Source, trace bool) *core.Result {
 		if coldKind >= 0 {
 			op := ops.Gen(src, []ops.Kind{coldKind})
 			if op.SQL != "" && op.Kind != ops.Suggest {
-				op.SQL = coldSQL
+				// same statement shape in every task, the text of every second task
+				// differs (identifiers and literals rotated): a buffer shared by
+				// mistake then shows in the RESULT, not only to the race detector
+				op.SQL = rotateLower(coldSQL, t%2)
 			}
 			work[t] = append(work[t], &cell{op: op})
 		}
 		n := 1 + src.Intn(5, "c10.nops")
+		if pureFocus && src.Intn(2, "c10.focusonly") == 1 {
+			n = 0
+		}
 		for i := 0; i < n; i++ {
 			op := ops.Gen(src, enabled)
 			if op.SQL != "" && op.Kind != ops.Suggest && src.Intn(2, "c10.useshared") == 1 {
@@ -180,6 +229,17 @@ func (p *P) Run(src *tape.Source, trace bool) *core.Result {
 		}
 	}
 	pol := sched.PickPolicy(src)
+	if pureFocus {
+		switch src.Intn(4, "c10.focuspol") {
+		case 0, 1:
+			pol = sched.AfterPut
+		case 2:
+			pol = sched.WalkFast
+		}
+		if src.Intn(2, "c10.focusmode") == 1 {
+			mode = pool.HitNewest
+		}
+	}
 	if trace {
 		r.Tracef(true, fmt.Sprintf("tasks=%d pool=%s policy=%s", nTasks, mode, pol))
 		for t := range work {
@@ -431,4 +491,19 @@ func firstPart(a, b string) string {
 		}
 	}
 	return name
+}
+
+// rotateLower shifts every lower-case ASCII letter by k (keywords in the
+// feature lists are upper-case: the statement keeps its shape).
+func rotateLower(s string, k int) string {
+	if k == 0 {
+		return s
+	}
+	b := []byte(s)
+	for i, c := range b {
+		if c >= 'a' && c <= 'z' {
+			b[i] = 'a' + (c-'a'+byte(k))%26
+		}
+	}
+	return string(b)
 }
